@@ -183,7 +183,9 @@ def term_table_rule(chk, src):
                                    "logger": OpenSym("logger"), "Op": Sym("Op", identity=identity), "_deduplicate_table": dedup})
         try:
             res = it.call_function(fi, [model, terms, const])
-        except Exception as e:  # noqa: BLE001 - any failure of the abstract run is reported as a finding of the rule
+        except AnalysisError:
+            raise               # the stand-ins cannot follow the code: no verdict
+        except Exception as e:  # noqa: BLE001 - an exception of the interpreted code is a finding of the rule
             problems.append(f"const={const}: {type(e).__name__}: {e}")
             continue
         if not (isinstance(res, tuple) and len(res) == 3 and "table" in got and isinstance(got["table"], _Arr) and isinstance(got["factor"], _Arr)):
@@ -637,12 +639,12 @@ def run(chk):
 META = {
     "category": "other",
     "engine": "FLOW + TNA(axis tracking)",
-    "technique": "def-use / sign / dtype dataflow lints and literal axis-permutation evaluation on the MPO builder and its readers (ast, sympy)",
+    "technique": "abstract interpretation (own ast interpreter, nothing of /repo is executed) of the MPO builder on symbolic terms, tables and operands: term table, one-site dispatcher, site-tensor layout, Op.split_elementary; def-use / dtype / narrow-integer dataflow lints on the remaining readers",
     "text": "Structural necessary conditions only: offset sign and row, total algorithm dispatch, guarded 16-bit casts, factor dtype, axis "
             "layout agreement between the builder and apply/todense, intra-site order. Breaking any of them breaks the operator (wrong "
             "constant, transposed operator, unreachable algorithm, silent index wrap-around, dropped imaginary parts). Exactness of the "
             "decomposition for every term table is runtime combinatorics / floating point and is not decided."
             " The builder's layout and the provenance of the local matrices are decided by an abstract run of symbolic_mo_to_numeric_mo / compose_symbolic_mo; the QR shortcut's guard is evaluated over a shape grid.",
     "note": "The apply() contraction side of the layout is decided in C03 (merge-order rule), the contraction kernels in C07/C08.",
-    "design_ref": "DESIGN.md 3.5, 3.2 (R4), 4 (C01)",
+    "design_ref": "DESIGN.md 3.5, 3.2 (R4), 4 (C01); as built: 9.1, 9.3, 9.8",
 }
